@@ -18,6 +18,7 @@ def run(tier):
     c.add_tlc(srf, "area features whose min and/or max depth is a surface given at points (local depth interval)")
     beh += [b for b in srf.behaviours if '"affine"' in b[:400] and '"poly2"' in b[:400]]
     for cfg, nm in (("Plume_cart_quick.cfg", "plume tables, Cartesian"), ("Plume_sph_quick.cfg", "plume tables, spherical"),
+                    ("Plume_cart_nohead.cfg", "plume tables, Cartesian, min depth below the first cross section (no head)"),
                     ("Plume_sph_dateline.cfg", "plume tables, spherical, the ellipse crosses the +180 meridian"),
                     ("Plume_sph_beyond.cfg", "plume tables, spherical, centres written at longitude 190"),
                     ("Plume_sph_west.cfg", "plume tables, spherical, centres written at longitude -180.2")):
